@@ -11,6 +11,7 @@ import (
 )
 
 func init() {
+	vpHarnesses["VP_C11_history"] = VP_C11_history
 	vpHarnesses["VP_C11_hostcalls"] = VP_C11_hostcalls
 	vpHarnesses["VP_C11_results"] = VP_C11_results
 }
@@ -458,4 +459,75 @@ func VP_C11_results() {
 	f, ok := v.(float64)
 	vpAssert("C11/results/go-number-becomes-formula-number", err == nil && ok && f == want[i])
 	vpReach("C11/results/value")
+}
+
+// C11/history: the declared signature is the one of the function found at the
+// time of each call (a name may be rebound between evaluations by the same
+// runner), and arguments - including a spread operand - are evaluated left to right.
+func VP_C11_history() {
+	var log []string
+	f1 := func(a int) (int, error) { log = append(log, "f1("+strconv.Itoa(a)+")"); return 1, nil }
+	f2 := func(a int, b string) (int, error) { log = append(log, "f2("+strconv.Itoa(a)+","+b+")"); return 2, nil }
+	fv := func(first interface{}, xs ...interface{}) (int, error) {
+		parts := make([]string, len(xs)+1)
+		for i, x := range append([]interface{}{first}, xs...) {
+			if x == nil {
+				parts[i] = "nil"
+			} else {
+				parts[i] = vpShowArg(x)
+			}
+		}
+		log = append(log, "fv("+vpFmtStrings(parts)+")")
+		return 3, nil
+	}
+	ctx := context.Background()
+	r := NewRunner()
+	num := func(v int64) *LiteralExpression { return vpLit(SK_NumberLiteral, strconv.FormatInt(v, 10)) }
+	callF := func(args ...Expression) *CallExpression { return &CallExpression{Expression: vpId("f"), Arguments: vpList(args...)} }
+	switch vpChoice("scenario", 4) {
+	case 0: // rebind through SetThisValue to a different signature
+		first := vpBool("firstIsTwoArgs")
+		if first {
+			r.SetThisValue("f", f2)
+			_, e := r.Resolve(ctx, callF(num(1), vpLit(SK_StringLiteral, "s")))
+			vpAssert("C11/history/first-call", e == nil && len(log) == 1 && log[0] == "f2(1,s)")
+			r.SetThisValue("f", f1)
+			_, e2 := r.Resolve(ctx, callF(num(5)))
+			vpAssert("C11/history/rebound-function-called-as-declared", e2 == nil && len(log) == 2 && log[1] == "f1(5)")
+			_, e3 := r.Resolve(ctx, callF(num(5), vpLit(SK_StringLiteral, "s")))
+			vpAssert("C11/history/rebound-misfit-is-error-and-not-invoked", e3 != nil && len(log) == 2)
+		} else {
+			r.SetThisValue("f", f1)
+			_, e := r.Resolve(ctx, callF(num(1)))
+			vpAssert("C11/history/first-call", e == nil && len(log) == 1 && log[0] == "f1(1)")
+			r.SetThisValue("f", f2)
+			_, e2 := r.Resolve(ctx, callF(num(5), vpLit(SK_StringLiteral, "s")))
+			vpAssert("C11/history/rebound-function-called-as-declared", e2 == nil && len(log) == 2 && log[1] == "f2(5,s)")
+			_, e3 := r.Resolve(ctx, callF(num(5)))
+			vpAssert("C11/history/rebound-misfit-is-error-and-not-invoked", e3 != nil && len(log) == 2)
+		}
+	case 1: // rebind through an assignment inside a formula: $g = f2, then $g(...)
+		r.SetThis(map[string]interface{}{"f1": f1, "f2": f2})
+		callG := func(args ...Expression) *CallExpression { return &CallExpression{Expression: vpId("$g"), Arguments: vpList(args...)} }
+		_, e := r.Resolve(ctx, vpBin(SK_Comma, vpBin(SK_Equals, vpId("$g"), vpId("f1")), callG(num(7))))
+		vpAssert("C11/history/local-function", e == nil && len(log) == 1 && log[0] == "f1(7)")
+		_, e2 := r.Resolve(ctx, vpBin(SK_Comma, vpBin(SK_Equals, vpId("$g"), vpId("f2")), callG(num(8), vpLit(SK_StringLiteral, "t"))))
+		vpAssert("C11/history/local-function-rebound", e2 == nil && len(log) == 2 && log[1] == "f2(8,t)")
+	case 2: // f($x = 5, [$x, 1]...): the spread operand is evaluated after the earlier argument
+		r.SetThis(map[string]interface{}{"f": fv})
+		call := callF(vpBin(SK_Equals, vpId("$x"), num(5)), &ArrayLiteralExpression{Elements: vpList(vpId("$x"), num(1))})
+		call.DotDotDotToken = &TokenNode{Token: SK_DotDotDot}
+		_, e := r.Resolve(ctx, call)
+		vpAssert("C11/history/spread-evaluated-left-to-right", e == nil && len(log) == 1 && log[0] == "fv([n:5|n:5|n:1])")
+	case 3: // f(fail(), g()...): an error on the left aborts before anything to its right runs
+		calls := 0
+		r.SetThis(map[string]interface{}{"f": fv,
+			"fail": func() (int, error) { return 0, errors.New("boom") },
+			"load": func() ([]interface{}, error) { calls++; return []interface{}{1}, nil }})
+		call := callF(&CallExpression{Expression: vpId("fail"), Arguments: vpList()}, &CallExpression{Expression: vpId("load"), Arguments: vpList()})
+		call.DotDotDotToken = &TokenNode{Token: SK_DotDotDot}
+		_, e := r.Resolve(ctx, call)
+		vpAssert("C11/history/left-error-aborts-before-right", e != nil && calls == 0 && len(log) == 0)
+	}
+	vpReach("C11/history/done")
 }
